@@ -167,13 +167,25 @@ def _build(d):
         while len(changes) < nsets:
             changes.append([d.choice(inputs), d.choice([3, 8, 50])])
         changes = changes[:nsets]
+    kinds = {}
+    if d.pick(3) == 0:
+        # inputs of OTHER KINDS (logical, text, blank, float) present when the
+        # extraction happens, under consumers that can tell the kinds apart
+        # (compared full against extract only)
+        kinds = {'Sheet1!XK1': d.choice([True, False, 1, 0.0]),
+                 'Sheet1!XK2': d.choice(['x', '', 'TRUE', '7', True]),
+                 'Sheet1!XK3': d.choice([2, 2.0, None, False])}
+        raw['Sheet1!XL1'] = '=COUNT(XK1:XK3)&"|"&COUNTA(XK1:XK3)'
+        raw['Sheet1!XL2'] = '=XK1&"|"&XK2&"|"&XK3'
+        raw['Sheet1!XL3'] = '=ISNUMBER(XK1)&ISTEXT(XK2)&ISBLANK(XK3)'
+        raw['Sheet1!XL4'] = '=IF(XK1=TRUE,XK3,-1)'
     sib = None
     if any('range' in n for n in names) and d.pick(2):
         # a SIBLING model handled first in the same process: the same names
         # for other cells / another extent (a later revision of a workbook)
         cur = [n['range'] for n in names if 'range' in n][0]
         sib = d.choice([e for e in exts if e != cur])
-    return {'sibling': sib, 'twice': d.pick(4) == 0,
+    return {'sibling': sib, 'twice': d.pick(4) == 0, 'kinds': kinds,
             'model': model, 'focus': sorted(set(focus)), 'pre': bool(
         d.pick(2)), 'changes': changes, 'names': names, 'prehist': prehist,
         'skipfirst': d.pick(3) == 0, 'again': d.pick(2) == 0, 'raw': raw}
@@ -205,9 +217,17 @@ def _compile(case, model):
     xl = lib.lib()
     names = case.get('names') or []
     if not names:
-        return lib.compile_dict(GM.to_dict(model))
+        dd = GM.to_dict(model)
+        for a in case.get('kinds') or {}:
+            dd[a] = 987654
+        if case.get('kinds'):
+            dd.update(case.get('raw') or {})
+        return lib.compile_dict(dd)
     # workbook path (the only one that creates defined names)
     per = {s: {} for s in model['sheets']}
+    for a in case.get('kinds') or {}:
+        s, a1 = a.split('!')
+        per[s][a1] = {'kind': 'n', 'v': 987654}
     for a, v in model['inputs'].items():
         s, a1 = a.split('!')
         per[s][a1] = {'kind': 'n', 'v': v}
@@ -309,6 +329,8 @@ def judge(case):
                     ev.evaluate(op[1])
                 except Exception:  # noqa: BLE001 - judged by C04/C07
                     pass
+        for a, v in sorted((case.get('kinds') or {}).items()):
+            ev.set_cell_value(a, v)
     except Exception as err:  # noqa: BLE001
         t = exc_tag(err)
         res.fail('compile-exception:%s:%s' % (t[1], t[2]), 'model', t)
@@ -317,6 +339,8 @@ def judge(case):
     consts_before = const_values(m)
     try:
         rawf = sorted(case.get('raw') or {})
+        if not names and not case.get('kinds'):
+            rawf = []
         if case.get('twice'):
             # "any model": the original may itself be an extract (of a
             # wider focus: every formula cell)
